@@ -915,3 +915,120 @@ def replay_tokenizer(ctx, cands):
             if complete and not n_garbage and r['stderr']: bad = True
         c.replay = {'stdin_bytes': repr(data), 'env': env, 'expected_values': expv, 'expected_complete': complete, 'actual_rows': got, 'result': r['result'], 'stderr': show(r['stderr'])[:200]}
         c.status = 'reproduced' if bad else ('unit' if c.family in ('tok.consumed', 'tok.location', 'tok.progress') else 'not-reproduced')
+
+
+# ---------------------------------------------------------------- translator self-check (DESIGN 2.4)
+def rust_unescape(s):
+    out = bytearray(); i = 0
+    while i < len(s):
+        c = s[i]
+        if c == '\\':
+            n = s[i + 1]
+            if n == 'n': out.append(10); i += 2
+            elif n == 't': out.append(9); i += 2
+            elif n == 'r': out.append(13); i += 2
+            elif n == '0': out.append(0); i += 2
+            elif n == 'x': out.append(int(s[i + 2:i + 4], 16)); i += 4
+            elif n == 'u':
+                j = s.index('}', i); out += chr(int(s[i + 3:j], 16)).encode('utf-8'); i = j + 1
+            else: out += n.encode('utf-8'); i += 2
+        else:
+            out += c.encode('utf-8'); i += 1
+    return bytes(out)
+
+
+def test_literals(ctx):
+    """the input literals of the repository's own json_parser unit tests"""
+    src = open(os.path.join(ctx.tree.src, 'src', 'json_parser.rs')).read()
+    k = src.find('mod tests')
+    lits = []
+    for m in re.finditer(r'let (?:str|text|source) = "((?:[^"\\]|\\.)*)"\s*\.\s*(?:to_string|into)\(\)', src[k:] if k > 0 else src):
+        b = rust_unescape(m.group(1))
+        if b not in lits and len(b) <= 48: lits.append(b)
+    extra = [b'1 2 3', b'[1, {"a": [true, null]}, "x"] -12 1.5e3', b'{"k":"v","n":[1,2]} x } 7', b'"\\u00e9\\n\\\\" 18446744073709551615 -9223372036854775808 18446744073709551616',
+             b'tru 1', b'[1,,2] 3', b'"abc', b'1E2 0e0 -0', b'\xff 1 "\xc3\xa9"']
+    return lits + extra
+
+
+def _selfcheck_one(args):
+    ctx, data = args
+    import math
+    sc = ParserScenario(ctx, len(data)); ex = sc.ex
+    sc.INPUT = [z3.BitVecVal(b, 8) for b in data]
+    F = ex.find(r'^json_parser::<impl at [^>]*>::next_json_value$')
+    st, info = sc.initial(arbitrary=False)
+    seq = []
+    for _ in range(len(data) + 2):
+        st.status = 'running'; ex.new_frame(st, F, [info['rref']])
+        outs = [d for d in ex.run(st) + sc.extra if d.status != 'infeasible']; sc.extra.clear()
+        pick = None
+        for d in outs:
+            pf = [e for e in d.events if e[0] == 'parse_f64']
+            okp = True
+            for e in pf[len([x for x in st.events if x[0] == 'parse_f64']):] if False else pf:
+                txt = bytes(cval(b.t) for b in e[1]).decode('latin-1')
+                try:
+                    f = float(txt); kind = 'finite' if math.isfinite(f) else 'infinite'
+                except Exception: kind = 'err'
+                if e[2] != kind: okp = False
+            if okp: pick = d if pick is None else 'ambiguous'
+        if pick is None or pick == 'ambiguous':
+            return {'data': repr(data), 'error': f'concrete MIR run does not give exactly one path ({len(outs)} paths)'}
+        d = pick
+        if d.status != 'returned': seq.append(('panic',)); break
+        r = obj(d, d.ret); rd = cval(ex.discr(d, r).t)
+        if rd == 0:
+            o = obj(d, d.heap[r.oid][('f', 'Ok', 0)])
+            if cval(ex.discr(d, o).t) == 0: break
+            den = sc.denote(d, d.heap[o.oid][('f', 'Some', 0)])
+            seq.append(('value', impl_to_py(den)))
+        else:
+            seq.append(('error',))
+        st = d
+    return {'data': repr(data), 'seq': seq, 'queries': ex.queries}
+
+
+def impl_to_py(den):
+    if den[0] == 'null': return None
+    if den[0] == 'bool': return bool(den[1])
+    if den[0] == 'string': return bytes(cval(b) for b in den[1]).decode('utf-8', errors='replace')
+    if den[0] == 'array': return [impl_to_py(x) for x in den[1]]
+    if den[0] == 'object': return {bytes(cval(b) for b in k).decode('utf-8', errors='replace'): impl_to_py(v) for k, v in den[1]}
+    if den[0] == 'int':
+        v = cval(den[2]); 
+        if den[1] == 'Negative' and v >= 2**63: v -= 2**64
+        return v
+    if den[0] == 'float': return float(bytes(cval(b) for b in den[1]).decode())
+    return ('?', den)
+
+
+def selfcheck(ctx):
+    """concrete execution of the MIR (all inputs fixed) on the repo's own parser test literals, compared with the real binary"""
+    from .cli import run_jawk, show
+    run = ctx.run
+    lits = test_literals(ctx)
+    if ctx.quick:
+        ctx.rng.shuffle(lits); lits = lits[:16]
+    results = pmap(_selfcheck_one, [(ctx, d) for d in lits])
+    n_ok = 0
+    for data, r in zip(lits, results):
+        if 'error' in r: raise Broken(f'translator self-check: {r}')
+        real = run_jawk(ctx, ['--style', 'consise', '--on-error', 'stdout'], data)
+        seq = []
+        for ln in real['stdout'].decode('utf-8', errors='replace').split('\n'):
+            if not ln: continue
+            if ln.startswith('error:'): seq.append(('error',))
+            else:
+                try: seq.append(('value', json.loads(ln)))
+                except Exception: seq.append(('unparsable', ln))
+        mine = [tuple(x) for x in r['seq']]
+        def same(a, b):
+            if a[0] != b[0]: return False
+            if a[0] != 'value': return True
+            return a[1] == b[1] or (isinstance(a[1], float) and isinstance(b[1], (int, float)) and float(a[1]) == float(b[1])) or json.dumps(a[1]) == json.dumps(b[1])
+        if len(mine) != len(seq) or not all(same(a, b) for a, b in zip(mine, seq)):
+            raise Broken(f'translator self-check: on {data!r} the MIR executor gives {mine} but the real binary gives {seq}')
+        n_ok += 1
+    run.notes.append(f'translator self-check: {n_ok} concrete inputs (json_parser unit-test literals + extras) executed through the MIR and compared with the real binary: all agree')
+    run.traces_validated += 0      # counted by run_jawk
+    return n_ok
